@@ -33,6 +33,16 @@ struct Nested {
     tag: Shape,
 }
 
+/// options around values whose serialised form is empty or atom-like
+#[derive(Debug, Clone, PartialEq, Serialize, Deserialize)]
+struct WithOpts {
+    list: Option<Vec<i64>>,
+    text: Option<String>,
+    map: Option<BTreeMap<String, i64>>,
+    tag: Option<Shape>,
+    bytes: Option<Vec<u8>>,
+}
+
 #[derive(Debug, Clone, PartialEq, Deserialize)]
 struct ElixirUserPlain {
     name: String,
@@ -109,6 +119,16 @@ fn dispatch(ty: &str, j: &Value) -> Value {
         "Shape" => go::<Shape>(j),
         "VecShape" => go::<Vec<Shape>>(j),
         "OptPlain" => go::<Option<Plain>>(j),
+        "OptVecI64" => go::<Option<Vec<i64>>>(j),
+        "OptVecStr" => go::<Option<Vec<String>>>(j),
+        "OptVecU8" => go::<Option<Vec<u8>>>(j),
+        "OptMapStrI64" => go::<Option<BTreeMap<String, i64>>>(j),
+        "OptShape" => go::<Option<Shape>>(j),
+        "OptTupI64Str" => go::<Option<(i64, String)>>(j),
+        "VecOptVecI64" => go::<Vec<Option<Vec<i64>>>>(j),
+        "MapStrOptVecI64" => go::<BTreeMap<String, Option<Vec<i64>>>>(j),
+        "TupOptVecOptStr" => go::<(Option<Vec<i64>>, Option<String>)>(j),
+        "WithOpts" => go::<WithOpts>(j),
         "MapStrPlain" => go::<BTreeMap<String, Plain>>(j),
         "ElixirUser" => match serde_json::from_value::<ElixirUserPlain>(j.clone()) {
             Ok(p) => rt(&ElixirUser { name: p.name, age: p.age, active: p.active, score: p.score }),
